@@ -13,6 +13,8 @@ Case payloads (space separated fields):
   `continue_releases` the timing of a Continue is irrelevant, by `observer_only` so is the program.
 * `K <n> <bpops> <trace> <prog-hex>` — `n` threads, each suspension is answered by `StopThreads`.
   Result `released=<n> end=kill|fin`.
+* `I <bos><boe> <bpops> <script> <trace> <entry-hex> <console-line-hex>,…` — a session of the command line
+  interpreter (`cli/tool/interpret.go`): entry file, then console lines, one thread. Same model function as `D`.
 * `Z <n> <bpops> <prog-hex>` — `n` threads run while `StopThreads` is called over and over: every thread ends
   (`stop_releases_all` for the suspended ones, the others finish). Result `ended=<n>`.
 * `L <mode> <bos><boe> <bpops> <script> <trace> <lib-hex> <main-hex>` — library and main program loaded in
@@ -125,6 +127,10 @@ def runCase (payload : String) : String :=
   match payload.splitOn " " with
   | "D" :: rest => caseD rest
   | "K" :: rest => caseK rest
+  | ["I", flags, bpops, script, trace, _entry, _lines] =>
+    -- command line interpreter session: the same model function on the recorded visit trace (with the
+    -- `f` = RecordThreadFinished events after the entry file and after every console line)
+    caseD ["1", flags, bpops, script, "poll", "0", trace, "-"]
   | ["Z", n, _bpops, _prog] => s!"ended={n}\tnt=1"
   | "L" :: _mode :: flags :: bpops :: script :: trace :: _lib :: [_main] =>
     -- life-cycle cases: the model is the same function of (visit trace while attached, break
